@@ -592,8 +592,13 @@ class _QueryMessage(_MessageType):
 
         if ProtocolVersion.uses_int_query_flags(protocol_version):
             write_uint(f, flags)
-        else:
+        elif protocol_version >= 2:
             write_byte(f, flags)
+        elif flags:
+            # a v1 QUERY is <query><consistency>: there is no flags byte and nothing after it
+            raise UnsupportedOperation(
+                "Query parameters and client timestamps require the use of protocol version "
+                "2 or higher. Consider setting Cluster.protocol_version to 2.")
 
         if self.query_params is not None:
             write_short(f, len(self.query_params))
